@@ -26,6 +26,7 @@ import (
 	"github.com/formancehq/numscript"
 	"github.com/formancehq/numscript/internal/analysis"
 	"github.com/formancehq/numscript/internal/interpreter"
+	"github.com/formancehq/numscript/internal/verifsim/c12"
 	"github.com/formancehq/numscript/internal/verifsim/core"
 	"github.com/formancehq/numscript/internal/verifsim/exec"
 	"github.com/formancehq/numscript/internal/verifsim/gen"
@@ -557,6 +558,20 @@ func genCase(r *rand.Rand) Case {
 	g := gen.Generate(r, prof)
 	c.Text = g.Prog.Text()
 	c.In = g.In
+	// every kind of run-time failure must travel through the CLI: reuse the labelled
+	// defects of the C12 engine (only their effect matters here, not their labels)
+	if r.IntN(3) == 0 {
+		pi := gen.PI{Prog: g.Prog, In: g.In}
+		for k := 1 + r.IntN(2); k > 0; k-- {
+			c12.ApplyDefect(r, &pi, true)
+		}
+		if r.IntN(6) == 0 {
+			pi.In.Vars = map[string]string{} // no variable supplied at all
+		}
+		g.Prog, g.In = pi.Prog, pi.In
+		c.Text = g.Prog.Text()
+		c.In = g.In
+	}
 	// awkward but legal strings travel through JSON and argv
 	for _, v := range g.Prog.Vars {
 		if v.Fn == "" && v.Type == "string" && r.IntN(2) == 0 {
